@@ -606,16 +606,14 @@ func genCases(rng *core.Rng, tier string) []*Case {
 }
 
 func buildBinary(outDir string) (string, error) {
-	repo := os.Getenv("VERIF_REPO")
-	if repo == "" {
-		repo = "/repo"
+	// built by ./check (go build ./cmd/... in the harness module, against /repo's current tree)
+	root := os.Getenv("VERIF_ROOT")
+	if root == "" {
+		root = "/verif"
 	}
-	bin := filepath.Join(outDir, "genqlient-bin")
-	cmd := exec.Command("go", "build", "-o", bin, ".")
-	cmd.Dir = repo
-	cmd.Env = append(os.Environ(), "GOFLAGS=-mod=mod", "GOPROXY=off", "GOSUMDB=off", "GOTOOLCHAIN=local")
-	if out, err := cmd.CombinedOutput(); err != nil {
-		return "", fmt.Errorf("building the genqlient binary: %v\n%s", err, out)
+	bin := filepath.Join(root, "_build", "bin", "genqlientbin")
+	if _, err := os.Stat(bin); err != nil {
+		return "", fmt.Errorf("genqlient binary not built: %v", err)
 	}
 	return bin, nil
 }
